@@ -71,7 +71,11 @@ func checkC05(c *Check) {
 			uncls = append(uncls, s)
 		}
 	}
-	c.add("O-C05.1", "verdicts are constant literals", "every return of the CRL check is a literal with a constant verdict", len(uncls) == 0, posOf(pg, uncls))
+	var unclsDet []string
+	for _, s := range uncls {
+		unclsDet = append(unclsDet, c.P.pos(s.Node.Pos)+": "+retKey(s, 0))
+	}
+	c.add("O-C05.1", "verdicts are constant literals", "every return of the CRL check is a literal with a constant verdict", len(uncls) == 0, posOf(pg, uncls), unclsDet...)
 	c.floor("CRL OK returns", 1, len(okRets))
 	c.floor("CRL Unknown returns", 2, len(distinctNodes(unk)))
 	c.floor("CRL Revoked returns", 1, len(rev))
@@ -88,6 +92,10 @@ func checkC05(c *Check) {
 		{"freshest-CRL pointer honoured", AnyOf(A("+Lt("+findExtIdx("p1.Extensions", oidFreshest)+", 0)"), A("-IsNil("+t.delta+")"))},
 	}
 	for _, r := range crlValidReqs(t.base, "p2") {
+		if strings.HasPrefix(r.name, "\t") {
+			gates = append(gates, req{r.name + " (base)", r.lp})
+			continue
+		}
 		gates = append(gates, req{"base CRL: " + r.name, r.lp})
 	}
 	for _, r := range crlValidReqs(t.delta, "p2") {
